@@ -79,27 +79,31 @@ else:
     sh(CLEAN, wt)
     res["confirmed"] = res["applies"] and res["build_vet_tests_with_change"] == "ok" and failed1 and not failed2
 # ---- 2. run the checks against /repo with the change applied
-rc, o = sh("git status --porcelain", "/repo")
-if o.strip():
-    print("refusing: /repo has uncommitted changes:\n" + o); sys.exit(2)
+CONFIRM_ONLY = "--confirm-only" in sys.argv
+if not CONFIRM_ONLY:
+    rc, o = sh("git status --porcelain", "/repo")
+    if o.strip():
+        print("refusing: /repo has uncommitted changes:\n" + o); sys.exit(2)
 res["checks"] = {}
 try:
-    rc, o = sh("git apply %s" % patch, "/repo")
-    if rc != 0:
-        res["checks"]["apply-to-repo"] = "FAILED " + o[-300:]
-    else:
-        for c in checks:
-            t0 = time.time()
-            env = dict(ENV, VERIF_EVIDENCE_DIR="/tmp/evidence-scratch")
-            rc, o = sh("./check %s --tier %s" % (c, tier), "/verif", timeout=3600, env=env)
-            lines = [l for l in o.splitlines() if l.startswith(("VIOLATION", "KNOWN-FINDING", "BROKEN-OBLIGATION", "INFRA", "check "))]
-            res["checks"][c] = {"exit": rc, "lines": lines[:12], "wall_s": round(time.time() - t0)}
-            # keep the first replay for the record
-            m = re.search(r"VIOLATION property=\S+ replay=(\S+)", o)
-            if m and os.path.exists(m.group(1)):
-                shutil.copy(m.group(1), os.path.join(dst, "replay-%s.json" % c))
+  if not CONFIRM_ONLY:
+      rc, o = sh("git apply %s" % patch, "/repo")
+      if rc != 0:
+          res["checks"]["apply-to-repo"] = "FAILED " + o[-300:]
+      else:
+          for c in checks:
+              t0 = time.time()
+              env = dict(ENV, VERIF_EVIDENCE_DIR="/tmp/evidence-scratch")
+              rc, o = sh("./check %s --tier %s" % (c, tier), "/verif", timeout=3600, env=env)
+              lines = [l for l in o.splitlines() if l.startswith(("VIOLATION", "KNOWN-FINDING", "BROKEN-OBLIGATION", "INFRA", "check "))]
+              res["checks"][c] = {"exit": rc, "lines": lines[:12], "wall_s": round(time.time() - t0)}
+              # keep the first replay for the record
+              m = re.search(r"VIOLATION property=\S+ replay=(\S+)", o)
+              if m and os.path.exists(m.group(1)):
+                  shutil.copy(m.group(1), os.path.join(dst, "replay-%s.json" % c))
 finally:
-    sh("git checkout -- . && git clean -fdq", "/repo")
+    if not CONFIRM_ONLY:
+        sh("git checkout -- . && git clean -fdq", "/repo")
 shutil.copy(patch, os.path.join(dst, "patch.diff"))
 for f in os.listdir(out):
     if f.startswith(x + ".demo"):
